@@ -114,11 +114,13 @@ def value_cases(draw, tier):
     mode = draw(st.sampled_from(["optimal", "fixed"]))
     param = draw(fixed_param(cost, p)) if mode == "fixed" else None
     cuts = draw(intervals(n, ms))
+    # another object of the same class, fitted on other data of the same shape, is alive and used in between
+    bystander = draw(st.sampled_from([None, None, "fitted_before", "fitted_after"]))
     X = draw(D.any_matrix(n, p))  # bulk data last (see strategies/data.py)
     if dup is not None:
         for row in X:
             row[dup] = row[0]
-    return {"cost": cost, "param": param, "X": X, "cuts": cuts}
+    return {"cost": cost, "param": param, "X": X, "cuts": cuts, "bystander": bystander}
 
 
 def expected_row(cost, param, X, s, e, n_fit, M):
@@ -163,12 +165,24 @@ def check_values(case):
     n, p = X.shape
     M = D.max_abs(case["X"])
     cuts = np.asarray(case["cuts"], dtype=np.int64)
+    bystander = case.get("bystander")
     with sut(f"{cost}.fit"):
+        other = None
+        if bystander == "fitted_before":
+            other = build_cost(cost, param).fit(X[::-1] * 0.75 + 0.5)
         scorer = build_cost(cost, param).fit(X)
+        if bystander == "fitted_after":
+            other = build_cost(cost, param).fit(X[::-1] * 0.75 + 0.5)
+    if other is not None:
+        try:
+            other.evaluate(cuts)  # the same intervals of the other object's data
+        except RuntimeError:
+            pass
     expected = [expected_row(cost, param, X, int(s), int(e), n, M) for s, e in cuts]
     must_raise = [i for i, ex in enumerate(expected) if ex[0] == "must_raise"]
     may_raise = [i for i, ex in enumerate(expected) if ex[0] == "illcond"]
-    classes = [f"cost={cost}", "mode=" + ("optimal" if param is None else "fixed"), f"p={p}"]
+    classes = [f"cost={cost}", "mode=" + ("optimal" if param is None else "fixed"), f"p={p}"] + \
+        ([f"bystander_{bystander}"] if bystander else [])
     try:
         with sut(f"{cost}.evaluate", allowed=(RuntimeError,)):
             out = scorer.evaluate(cuts)
@@ -380,6 +394,43 @@ def check_invalid_param(case):
                     cost=case["cost"], param=case["param"], kind=case["kind"])
 
 
+# ------------------------------------------------------------------ wide data
+
+
+def wide_cells(tier):
+    """Many columns (20..120; n a few times p) in several units: determinants and sums over columns reach the limits of
+    the float range (|log det| of several hundreds) although every covariance is well-conditioned. Data are a
+    deterministic function of the cell (numpy PCG64 seeded with the stored seed; ~10^4..10^5 values)."""
+    i = 0
+    for p_ in (20, 50, 100, 120) if tier == "quick" else (20, 35, 50, 80, 100, 120, 160):
+        for unit in (1.0, 0.01, 40.0, 1e-3, 1e3):
+            for cost in ("GaussianCovCost", "GaussianVarCost", "L2Cost"):
+                if cost != "GaussianCovCost" and unit in (0.01, 1e3) and tier == "quick":
+                    continue
+                i += 1
+                yield {"cost": cost, "p": p_, "n": 4 * p_ + i % 7, "unit": unit, "seed": 4000 + i,
+                       "fixed": i % 3 == 0}
+
+
+def check_wide(case):
+    cost, p_, n, unit = case["cost"], case["p"], case["n"], case["unit"]
+    rng = np.random.Generator(np.random.PCG64(case["seed"]))
+    X = rng.normal(size=(n, p_)) * unit * rng.uniform(0.5, 2.0, size=p_) + unit * rng.normal(size=p_)
+    ms = p_ + 1 if cost == "GaussianCovCost" else 2
+    cuts = [[0, n], [0, n - 3], [n - 2 * ms - 1, n], [n // 5, n // 5 + 2 * ms + 3], [3, 3 + ms + p_]]
+    cuts = [c for c in cuts if 0 <= c[0] and c[1] <= n and c[1] - c[0] >= (2 * p_ if cost == "GaussianCovCost" else ms)]
+    param = None
+    if case["fixed"]:
+        param = {"mean": 0.0}
+        if cost == "GaussianVarCost":
+            param["var"] = unit * unit
+        if cost == "GaussianCovCost":
+            param["cov"] = unit * unit
+    info = check_values({"cost": cost, "param": param, "X": X.tolist(), "cuts": cuts})
+    info["classes"] = list(info["classes"]) + [f"unit={unit:g}"]
+    return info
+
+
 FACETS = [
     Facet(
         name="values",
@@ -387,7 +438,8 @@ FACETS = [
         strategy=value_cases,
         rule=("L2Cost/GaussianVarCost/GaussianCovCost x optimal/fixed parameter (scalar or per-column mean/variance, float or integer-typed, "
               "scalar or A A^T + cI covariance), data families exact/generic/structured/constant/duplicated column, "
-              "batches of 1..16 admissible intervals or all intervals for n<=8; non-trivial = a proper sub-interval "
+              "batches of 1..16 admissible intervals or all intervals for n<=8; optionally a second object of the same class, fitted on other data "
+              "before or after, evaluates the same intervals in between; non-trivial = a proper sub-interval "
               "with a non-constant slice whose value was compared with the definitional value"),
         n_quick=2400, n_thorough=36000, shards_quick=8, shards_thorough=16,
     ),
@@ -415,5 +467,12 @@ FACETS = [
         rule=("wrong-length mean/variance, non-positive variance, wrong-shape or non-positive-definite covariance; "
               "fit must raise ValueError; every case is non-trivial"),
         n_quick=300, n_thorough=3000, shards_quick=4, shards_thorough=8,
+    ),
+    Facet(
+        name="wide_data", kind="enumerate", enumerate=wide_cells, check=check_wide, exhaustive=True, time_limit=300,
+        rule=("p in {20,50,100,120} (thorough: up to 160) columns, n ~ 4p, seeded Gaussian data in units 1e-3..1e3 (per-column spread 0.5..2, "
+              "|log det| up to several hundreds), all three costs with optimal and scalar fixed parameters, whole-series and long sub-intervals; "
+              "same definitional oracle; every cell non-trivial"),
+        shards_quick=8, shards_thorough=16, max_samples=1,
     ),
 ]
